@@ -6,6 +6,7 @@ import (
 
 	vmcommon "github.com/ElrondNetwork/elrond-vm-common"
 	"github.com/ElrondNetwork/elrond-vm-common/data/esdt"
+	"github.com/ElrondNetwork/elrond-vm-common/txDataBuilder"
 
 	"verif/harness/world"
 )
@@ -100,7 +101,7 @@ func ProcessMsg(in Row) (Row, string) {
 	if r.Panic != "" {
 		out["e"] = r.Panic
 	}
-	out["data"] = []int{}
+	out["data"], out["data2"] = []int{}, []int{}
 	out["parse"], out["dst"] = Row{"cls": "skipped"}, Row{"cls": "skipped"}
 	cl := []string{}
 	if r.Res == "ok" {
@@ -123,6 +124,17 @@ func ProcessMsg(in Row) (Row, string) {
 				d := parseTransfers(snd, dst, string(B(v["fn"])), BB(v["args"]))
 				out["dst"] = d
 				cl = append(cl, Cls(d))
+				again := Guard(func() (interface{}, error) { // build - parse - build
+					b := txDataBuilder.NewBuilder().Func(string(B(v["fn"])))
+					for _, a := range BB(v["args"]) {
+						b.Bytes(a)
+					}
+					return b.ToString(), nil
+				})
+				cl = append(cl, Cls(again))
+				if Cls(again) == "value" {
+					out["data2"] = I([]byte(again["v"].(string)))
+				}
 			}
 		}
 	}
